@@ -20,6 +20,7 @@ TInit == /\ tid \in 1..Len(Recs)
          /\ pc = "M1sent" /\ d = NoDict /\ kc = None /\ m5 = None /\ apc = "idle" /\ record = None /\ failed = "none"
 \* the recorded M4 / M6 are the ones delivered
 TNext == /\ \/ CtrlNext
+            \/ CheckProofPadded(Recs[tid].m5sent)      \* open verdict: the branch the code took
             \/ SendM3(Rec4(Recs[tid].m4))
             \/ SendM5(Rec6(Recs[tid].m6))
          /\ UNCHANGED tid
